@@ -210,7 +210,7 @@ func monC16(c *drv.Ctx) {
 			cs.Count(l >= 1, "buf", span, l)
 		})
 		// (2) long runs that wrap the 1 MiB spans several times
-		c.Stage("runs/"+name, c.Pick(60, 2000), false, func(cs *drv.Case) {
+		c.Stage("runs/"+name, c.Pick(300, 3000), false, func(cs *drv.Case) {
 			thrift.SetSpanCache(span)
 			r := cs.R
 			n := 200 + r.Intn(600)
@@ -238,7 +238,7 @@ func monC16(c *drv.Ctx) {
 			}
 		})
 		// (3) results identical with the allocator on and off: decoded structs
-		c.Stage("structs/"+name, c.Pick(1500, 100000), false, func(cs *drv.Case) {
+		c.Stage("structs/"+name, c.Pick(12000, 200000), false, func(cs *drv.Case) {
 			thrift.SetSpanCache(span)
 			r := cs.R
 			orig := &base.Base{LogID: genFieldStr(r), Caller: genFieldStr(r), Addr: genFieldStr(r), Extra: genExtra(r)}
@@ -287,7 +287,7 @@ func monC16(c *drv.Ctx) {
 	}
 	thrift.SetSpanCache(false)
 	// (4) stream reader: release, recycle, pool reuse, second message through a recycled reader
-	c.Stage("stream", c.Pick(1500, 100000), false, func(cs *drv.Case) {
+	c.Stage("stream", c.Pick(12000, 200000), false, func(cs *drv.Case) {
 		r := cs.R
 		n := 2 + r.Intn(10)
 		lens := make([]int, n)
